@@ -23,6 +23,8 @@ pub struct FilteredRouter {
     gate: Gate,
     addr: SocketAddr,
     ingress_id: ingress::IngressId,
+    unit_metrics: Arc<BmpTcpInMetrics>,
+    bmp_metrics: Arc<BmpStateMachineMetrics>,
 }
 
 impl FilteredRouter {
@@ -35,8 +37,10 @@ impl FilteredRouter {
         let (gate, agent) = Gate::new(0);
         let unit_metrics = Arc::new(BmpTcpInMetrics::new(&gate));
         let bmp_metrics = Arc::new(BmpStateMachineMetrics::new());
-        let reporter =
-            Arc::new(BmpTcpInStatusReporter::new("verif", unit_metrics));
+        let reporter = Arc::new(BmpTcpInStatusReporter::new(
+            "verif",
+            unit_metrics.clone(),
+        ));
         let state = BmpState::new(
             ingress_id,
             Arc::new(ingress_id.to_string()),
@@ -56,9 +60,19 @@ impl FilteredRouter {
             Default::default(),
             Default::default(),
             None,
-            bmp_metrics,
+            bmp_metrics.clone(),
         );
-        (Self { handler, gate, addr, ingress_id }, agent)
+        (
+            Self {
+                handler,
+                gate,
+                addr,
+                ingress_id,
+                unit_metrics,
+                bmp_metrics,
+            },
+            agent,
+        )
     }
 
     pub fn gate(&self) -> &Gate {
@@ -78,5 +92,15 @@ impl FilteredRouter {
 
     pub async fn phase(&self) -> u8 {
         self.handler.verif_phase().await
+    }
+
+    /// Both metric sources of the connection (the per-router counters of the
+    /// connection handler and the state machine's) as /metrics renders them.
+    pub fn metrics_prometheus(&self) -> String {
+        use crate::metrics::{OutputFormat, Source, Target};
+        let mut target = Target::new(OutputFormat::Prometheus);
+        self.unit_metrics.append("verif", &mut target);
+        self.bmp_metrics.append("verif", &mut target);
+        target.into_string()
     }
 }
